@@ -26,7 +26,7 @@ for i in ids:
 m = {
     'version': 1, 'setup_cmd': 'python3 check.py --setup',
     'hooks': {'guard': 'cargo feature verif-hooks',
-              'enable': '--features verif-hooks (harness/Cargo.toml depends on /repo with this feature and with the crate's own cli feature)',
+              'enable': '--features verif-hooks (harness/Cargo.toml depends on /repo with this feature and with the cli feature of the crate)',
               'baseline_off_cmd': 'cd /repo && cargo test --workspace --no-fail-fast --offline',
               'source_commits': HOOK_COMMITS, 'add_only': True},
     'engines': [{'name': 'coq-model+correspondence', 'path': 'check.py', 'serves_properties': sorted(CLAIMED),
